@@ -237,7 +237,8 @@ def main(tier):
     ob("IF|^", "bin", "^", INT, FLT, ["(Ok %s)" % NV("(call f64::powf (fa) (b))")], R_FLT)
     ob("FI|^", "bin", "^", FLT, INT, ["(Ok %s)" % NV("(call f64::powf (a) (fb))")], R_FLT)
     ob("FF|^", "bin", "^", FLT, FLT, ["(Ok %s)" % NV("(call f64::powf (a) (b))")], R_FLT)
-    ob("I|!", "post", "!", INT, None, ["(if (call ops::RangeInclusive::contains (rangei (lit 0 i64) (lit ?k i64)) (a)) (seq (let ?m (lit 1 i64)) (for (bind ?i) (rangei (lit 2 usize) (cast i64 usize (a))) (setop mul i64 (var ?m) (cast usize i64 (var ?i)))) (Ok (I (var ?m)))) (Ok %s))" % NV("(call Ast.gamma (op add f64 (fa) (lit 1.0 f64)))")],
+    ob("I|!", "post", "!", INT, None, ["(if (call ops::RangeInclusive::contains (rangei (lit 0 i64) (lit ?k i64)) (a)) (seq (let ?m (lit 1 i64)) (for (bind ?i) (rangei (lit 2 usize) (cast i64 usize (a))) (setop mul i64 (var ?m) (cast usize i64 (var ?i)))) (Ok (I (var ?m)))) (Ok %s))" % NV("(call Ast.gamma (op add f64 (fa) (lit 1.0 f64)))"),
+                                       "(if (call ops::RangeInclusive::contains (rangei (lit 0 i64) (lit ?k i64)) (a)) (seq (let ?m (lit 1 i64)) (for (bind ?i) (rangei (lit 2 i64) (a)) (setop mul i64 (var ?m) (var ?i))) (Ok (I (var ?m)))) (Ok %s))" % NV("(call Ast.gamma (op add f64 (fa) (lit 1.0 f64)))")],
        "C09 n! for an Integer 0 <= n <= 20 is the Integer product 2*..*n")
     for name, mth in (("floor(", "floor"), ("ceil(", "ceil"), ("round(", "round")):
         ob("I|%s" % name, "fn", name, INT, None, ["(Ok (I (a)))"], "C09 rounding an Integer returns it")
